@@ -165,7 +165,7 @@ func runC17(c *Ctx) {
 		facts := w.factsAt(trueRet)
 		for _, f := range facts {
 			if v, isNil, ok := nilFact(f); ok && isNil {
-				if ac, ai := callOf(v); ac != nil && ai == 1 && ac.Call.StaticCallee() != nil && ac.Call.StaticCallee().String() == "strconv.Atoi" {
+				if ac, ai := callOf(v); ac != nil && ai == 1 && isDecimalParse(ac) {
 					atoi = ac
 					okErr = true
 				}
@@ -179,7 +179,7 @@ func runC17(c *Ctx) {
 			} else if u, ok := s.(*ssa.UnOp); ok {
 				if ia, ok := u.X.(*ssa.IndexAddr); ok {
 					if k, isK := constInt(ia.Index); isK && k == 0 {
-						if sc, _ := callOf(ia.X); sc != nil && sc.Call.StaticCallee() != nil && sc.Call.StaticCallee().String() == "strings.Split" && w.isFieldLoadOf(sc.Call.Args[0], ra, "Username") {
+						if sc, _ := callOf(ia.X); sc != nil && isColonSplit(sc) && w.isFieldLoadOf(sc.Call.Args[0], ra, "Username") {
 							stampOK = true
 						}
 					}
@@ -204,4 +204,43 @@ func runC17(c *Ctx) {
 			c.Bad("C17.2", fname(h), "expiry", w.instrPos(trueRet), fmt.Sprintf("the accepting return is not on the edge stamp ≥ now in whole seconds (Atoi ok=%v, stamp is the username's leading field=%v, comparison int64(stamp) vs time.Now().Unix() in normal form=%v)", okErr, stampOK, okCmp), w.factsDesc(trueRet)...)
 		}
 	}
+}
+
+// isDecimalParse: strconv.Atoi(s), or strconv.ParseInt(s, 10, 0|64) — the same function on
+// every string.
+func isDecimalParse(c *ssa.Call) bool {
+	cal := c.Call.StaticCallee()
+	if cal == nil {
+		return false
+	}
+	switch cal.String() {
+	case "strconv.Atoi":
+		return true
+	case "strconv.ParseInt":
+		base, ok1 := constInt(c.Call.Args[1])
+		bits, ok2 := constInt(c.Call.Args[2])
+		return ok1 && ok2 && base == 10 && (bits == 0 || bits == 64)
+	}
+	return false
+}
+
+// isColonSplit: strings.Split(s, ":"), or strings.SplitN(s, ":", n) with n < 0 or n ≥ 3 —
+// the first two fields are then the same as Split's.
+func isColonSplit(c *ssa.Call) bool {
+	cal := c.Call.StaticCallee()
+	if cal == nil || len(c.Call.Args) < 2 {
+		return false
+	}
+	sep, ok := c.Call.Args[1].(*ssa.Const)
+	if !ok || sep.Value == nil || sep.Value.ExactString() != `":"` {
+		return false
+	}
+	switch cal.String() {
+	case "strings.Split":
+		return true
+	case "strings.SplitN":
+		n, okN := constInt(c.Call.Args[2])
+		return okN && (n < 0 || n >= 3)
+	}
+	return false
 }
